@@ -1,0 +1,101 @@
+//! Verification hooks (only compiled with the cargo feature `verif-hooks`).
+//!
+//! The runner reports the decision points of the spawning thread and the begin/end of every
+//! worker to a process-global observer. With the feature off, none of this exists.
+
+use crate::Params;
+use std::sync::{Arc, RwLock};
+
+/// Values the runner resolved for one parallel run.
+#[derive(Clone, Copy, Debug)]
+pub struct RunInfo {
+    /// Kind of the task: "Collect", "EarlyReturn" or "Reduce".
+    pub task: &'static str,
+    /// Name of the runner entry point: "run", "run_map" or "reduce".
+    pub entry: &'static str,
+    /// Parameters the run was started with.
+    pub params: Params,
+    /// Remaining length of the input as reported by the concurrent iterator.
+    pub input_len: Option<usize>,
+    /// Resolved maximum number of threads.
+    pub max_num_threads: usize,
+    /// Resolved chunk size.
+    pub chunk: usize,
+    /// Whether the resolved chunk size is exact (otherwise it is a minimum).
+    pub chunk_is_exact: bool,
+}
+
+/// Observer of runner events.
+pub trait Hooks: Send + Sync {
+    /// A parallel run starts on the calling thread.
+    fn run_begin(&self, info: &RunInfo);
+    /// The spawning thread is about to decide whether to spawn another worker.
+    fn pre_decide(&self, num_spawned: usize);
+    /// The spawning thread is about to compute the chunk size of the next lag period.
+    fn pre_chunk(&self, num_spawned: usize);
+    /// The spawning thread has spawned its last worker.
+    fn before_join(&self, num_spawned: usize);
+    /// Called on a worker thread before its task starts.
+    fn worker_begin(&self, chunk: usize);
+    /// Called on a worker thread after its task ended (or while it unwinds).
+    fn worker_end(&self, panicking: bool);
+}
+
+static HOOKS: RwLock<Option<Arc<dyn Hooks>>> = RwLock::new(None);
+
+/// Installs (or removes) the process-global observer.
+pub fn set_hooks(hooks: Option<Arc<dyn Hooks>>) {
+    *HOOKS.write().unwrap_or_else(|e| e.into_inner()) = hooks;
+}
+
+fn get() -> Option<Arc<dyn Hooks>> {
+    HOOKS.read().unwrap_or_else(|e| e.into_inner()).clone()
+}
+
+pub(crate) fn run_begin(info: RunInfo) {
+    if let Some(h) = get() {
+        h.run_begin(&info);
+    }
+}
+
+pub(crate) fn pre_decide(num_spawned: usize) {
+    if let Some(h) = get() {
+        h.pre_decide(num_spawned);
+    }
+}
+
+pub(crate) fn pre_chunk(num_spawned: usize) {
+    if let Some(h) = get() {
+        h.pre_chunk(num_spawned);
+    }
+}
+
+pub(crate) fn before_join(num_spawned: usize) {
+    if let Some(h) = get() {
+        h.before_join(num_spawned);
+    }
+}
+
+struct EndGuard(Option<Arc<dyn Hooks>>);
+
+impl Drop for EndGuard {
+    fn drop(&mut self) {
+        if let Some(h) = &self.0 {
+            h.worker_end(std::thread::panicking());
+        }
+    }
+}
+
+pub(crate) fn wrap_task<'a, F, T>(task: &'a F) -> impl Fn(usize) -> T + Sync + 'a
+where
+    F: Fn(usize) -> T + Sync,
+{
+    move |chunk| {
+        let hooks = get();
+        if let Some(h) = &hooks {
+            h.worker_begin(chunk);
+        }
+        let _guard = EndGuard(hooks);
+        task(chunk)
+    }
+}
